@@ -147,10 +147,25 @@ def run(ctx):
     # postprocess
     from pero_ocr.ocr_engine.transformer_ocr_engine import TransformerEngineLineOCR
     import torch as _t
-    for _ in range(40 if ctx.quick() else 400):
+    for _ in range(150 if ctx.quick() else 1500):
         eos, ign = 5, 6
         line = [rng.randrange(0, 7) for _ in range(rng.randrange(0, 10))]
         out = TransformerEngineLineOCR.postprocess_decoded(None, _t.tensor([line], dtype=_t.long), ign, eos)[0].tolist() if line else []
+        # oracle (independent of the model): no boundary / ignore symbol survives; the result is the emitted line up to its
+        # first boundary without the ignore symbols; the line's result does not depend on the other lines of its batch
+        cut = line[:line.index(eos)] if eos in line else line
+        exp = [x for x in cut if x != ign]
+        pinp = dict(line=line, eos=eos, ign=ign)
+        if eos in out or ign in out:
+            ctx.violation('postprocess:symbols', 'transcription contains a boundary or ignore symbol', pinp, out)
+        elif out != exp:
+            ctx.violation('postprocess:content', 'transcription is not the emitted line up to its first boundary, less ignore symbols', pinp, out, exp)
+        if line:
+            other = [rng.randrange(0, 7) for _ in line]
+            both = TransformerEngineLineOCR.postprocess_decoded(None, _t.tensor([line, other], dtype=_t.long), ign, eos)
+            if both[0].tolist() != out:
+                ctx.violation('postprocess:batch-dependent', "a line's transcription depends on the other lines of its batch",
+                              dict(pinp, other=other), both[0].tolist(), out)
         reqs.append(dict(p='C20', op='postprocess', eos=eos, ign=ign, line=line))
         impl.append((dict(line=line), out))
         ctx.evaluations += 1
